@@ -228,7 +228,10 @@ EXTRA = {
     "C08": "q4 additions: an inductive relation Matches with one rule per clause of the property (Spec/PatternRel) and matches_iff (the executable spec = the relation, no hypotheses), "
            "match_iff_matches / nomatch_iff_matches for the compiled matcher, capture exactness at every depth (cap_field, cap_item, cap_tail, caps_inner_*, caps_are_parts: nothing "
            "but the subject, field values, sequence elements and suffix tuples is ever bound), the MultiPatternMatcher constructor (multiInit_some_iff, multi_text_eq_spec, multiRun_first), "
-           "$var on nodes = content equality (var_node_contentEq via C01).",
+           "$var on nodes = content equality (var_node_contentEq via C01). s3 addition: `BaseMatcher.match` and the `_match` methods of all six matcher classes are REGENERATED from "
+           "match/pattern.py on every run (py2lean_k.generate_match -> Gen/KernelsMatch.lean) and the hand-written matcher-run function is proved equal to the generated dispatcher on every matcher, "
+           "value and context (GenBridgeMatch.run_eq_gen, matchNode_eq_gen; gen_eq_spec / gen_match_iff restate run_eq_spec / match_iff about the generated function; optional obligation; "
+           "trusted: the class-to-constructor table and the primitive table MATCH_CLASSES / MATCH_PRIMITIVES of py2lean_k.py).",
     "C10": "Audit additions: registry frame for every operation (reg_frame*, unregister_exact: detach / replace remove exactly the receiver's descendants — RegOrd.detach_exact, "
            "mem_descendants_iff), obj_frame_history / id_frame_run over whole histories.",
     "C13": "Audit additions: soundness and completeness of the report (field_reported_iff, construct_error_sound / construct_error_witness, checkRuntimeTypes_subset), "
